@@ -11,7 +11,8 @@
 //!        "wait":["wait"|"try"|"poll",..] the caller's calls on the returned Child (Child::wait / one
 //!               Child::try_wait / stdin closed + try_wait polled until not None),
 //!        "feed":"text"|null  (bytes written to a stdin pipe before waiting),
-//!        "bulk":bool (use Command::args / Command::envs instead of repeated arg / env)}
+//!        "bulk":bool (use Command::args / Command::envs instead of repeated arg / env),
+//!        "payload":N, "respawn":null|{"extra":"a3"|null}  (see the comments at the operation)}
 //!
 //! Markers for the tracer are writes to descriptor -1 (EBADF, no effect):
 //!   MARK:spawn:begin                  just before `Command::spawn`
@@ -188,56 +189,126 @@ fn main() {
     // return of spawn and the marker.
     let begin = b"MARK:spawn:begin";
     let end = b"MARK:spawn:end";
-    let mut mbuf = [0u8; 64];
-    unsafe { libc::write(-1, begin.as_ptr().cast(), begin.len()) };
-    let res = cmd.spawn();
-    let n = {
-        let mut c = std::io::Cursor::new(&mut mbuf[..]);
-        match &res {
-            Ok(_) => write!(c, "MARK:returned:ok").unwrap(),
-            Err(tiny_std::Error::Os { code, .. }) => write!(c, "MARK:returned:err:{}", code.raw()).unwrap(),
-            Err(_) => write!(c, "MARK:returned:err:none").unwrap(),
-        }
-        c.position() as usize
+    // "respawn": null | {"extra": "a3"|null}: the SAME Command value is spawned a second time,
+    // optionally after one more builder step
+    let rounds = if plan["respawn"].is_object() { 2 } else { 1 };
+    let extra: Option<UnixString> = plan["respawn"]["extra"].as_str().map(ustring);
+    // the caller's calls on the returned Child, in the planned order:
+    //   "wait" Child::wait | "try" one Child::try_wait | "poll" close stdin, try_wait until not None
+    //   "W" write the payload (plan "payload" bytes of a fixed pattern) to Child::stdin | "C" drop Child::stdin
+    //   "RO" / "RE" read Child::stdout / Child::stderr to end-of-file
+    let ops: Vec<String> = match &plan["wait"] {
+        Value::Array(a) => a.iter().map(|x| x.as_str().unwrap().to_string()).collect(),
+        Value::Bool(false) => vec![],
+        Value::String(m) if m == "try" => vec!["poll".to_string()],
+        _ => vec!["wait".to_string()],
     };
-    unsafe { libc::write(-1, mbuf.as_ptr().cast(), n) };
-    if unsafe { libc::getpid() } != me {
-        // a second copy of the caller: this is the behaviour the property forbids; get out
-        unsafe { libc::_exit(97) };
-    }
-    // ---------------------------------------------------------------------------------------
-
-    match res {
-        Err(e) => {
-            let code = if let tiny_std::Error::Os { code, .. } = e { json!(code.raw()) } else { Value::Null };
-            ev(json!({"ev":"returned","res":"err","code":code,"msg":format!("{e}")}));
-        }
-        Ok(mut child) => {
-            use tiny_std::unix::fd::AsRawFd;
-            let pfd = |p: &Option<tiny_std::process::AnonPipe>| match p {
-                Some(p) => {
-                    let fd = p.borrow_fd().as_raw_fd().value();
-                    let fl = unsafe { libc::fcntl(fd, libc::F_GETFL) };
-                    json!({"fd": fd, "link": fd_link(fd), "acc": fl & libc::O_ACCMODE})
-                }
-                None => Value::Null,
-            };
-            ev(json!({"ev":"returned","res":"ok","child_pid":child.get_pid(),
-                      "pipes":{"stdin":pfd(&child.stdin),"stdout":pfd(&child.stdout),"stderr":pfd(&child.stderr)}}));
-            if let (Some(feed), Some(p)) = (plan["feed"].as_str(), child.stdin.as_mut()) {
-                use tiny_std::io::Write as _;
-                let _ = p.write(feed.as_bytes());
+    let payload: Vec<u8> = (0..plan["payload"].as_u64().unwrap_or(0) as usize).map(|i| ((i * 7 + 13) % 251) as u8).collect();
+    for round in 1..=rounds {
+        if round == 2 {
+            if let Some(x) = &extra {
+                cmd.arg(x);
             }
-            // the caller's calls on the returned Child, in the planned order:
-            //   "wait" Child::wait | "try" one Child::try_wait | "poll" close stdin, try_wait until not None
-            let ops: Vec<String> = match &plan["wait"] {
-                Value::Array(a) => a.iter().map(|x| x.as_str().unwrap().to_string()).collect(),
-                Value::Bool(false) => vec![],
-                Value::String(m) if m == "try" => vec!["poll".to_string()],
-                _ => vec!["wait".to_string()],
-            };
-            {
+        }
+        let mut mbuf = [0u8; 64];
+        unsafe { libc::write(-1, begin.as_ptr().cast(), begin.len()) };
+        let res = cmd.spawn();
+        let n = {
+            let mut c = std::io::Cursor::new(&mut mbuf[..]);
+            match &res {
+                Ok(_) => write!(c, "MARK:returned:ok").unwrap(),
+                Err(tiny_std::Error::Os { code, .. }) => write!(c, "MARK:returned:err:{}", code.raw()).unwrap(),
+                Err(_) => write!(c, "MARK:returned:err:none").unwrap(),
+            }
+            c.position() as usize
+        };
+        unsafe { libc::write(-1, mbuf.as_ptr().cast(), n) };
+        if unsafe { libc::getpid() } != me {
+            // a second copy of the caller: this is the behaviour the property forbids; get out
+            unsafe { libc::_exit(97) };
+        }
+        // -----------------------------------------------------------------------------------
+        match res {
+            Err(e) => {
+                let code = if let tiny_std::Error::Os { code, .. } = e { json!(code.raw()) } else { Value::Null };
+                ev(json!({"ev":"returned","round":round,"res":"err","code":code,"msg":format!("{e}")}));
+            }
+            Ok(mut child) => {
+                use tiny_std::unix::fd::AsRawFd;
+                let pfd = |p: &Option<tiny_std::process::AnonPipe>| match p {
+                    Some(p) => {
+                        let fd = p.borrow_fd().as_raw_fd().value();
+                        let fl = unsafe { libc::fcntl(fd, libc::F_GETFL) };
+                        json!({"fd": fd, "link": fd_link(fd), "acc": fl & libc::O_ACCMODE})
+                    }
+                    None => Value::Null,
+                };
+                ev(json!({"ev":"returned","round":round,"res":"ok","child_pid":child.get_pid(),"fds":fd_table(),
+                          "pipes":{"stdin":pfd(&child.stdin),"stdout":pfd(&child.stdout),"stderr":pfd(&child.stderr)}}));
+                if let (Some(feed), Some(p)) = (plan["feed"].as_str(), child.stdin.as_mut()) {
+                    use tiny_std::io::Write as _;
+                    let _ = p.write(feed.as_bytes());
+                }
+                let read_all = |p: &mut Option<tiny_std::process::AnonPipe>| -> Value {
+                    use tiny_std::io::Read as _;
+                    let Some(p) = p.as_mut() else { return json!({"res":"nopipe"}) };
+                    let (mut n, mut a, mut b) = (0u64, 1u32, 0u32);
+                    let mut head = Vec::new();
+                    let mut buf = [0u8; 8192];
+                    loop {
+                        match p.read(&mut buf) {
+                            Ok(0) => break json!({"res":"eof","n":n,"a":a,"b":b,"head":String::from_utf8_lossy(&head)}),
+                            Ok(k) => {
+                                for &c in &buf[..k] {
+                                    a = (a + c as u32) % 65521;
+                                    b = (b + a) % 65521;
+                                }
+                                if head.len() < 48 {
+                                    head.extend_from_slice(&buf[..k.min(48 - head.len())]);
+                                }
+                                n += k as u64;
+                            }
+                            Err(_) => break json!({"res":"err","n":n,"a":a,"b":b,"head":""}),
+                        }
+                    }
+                };
                 for op in &ops {
+                    match op.as_str() {
+                        "W" => {
+                            use tiny_std::io::Write as _;
+                            let mut off = 0;
+                            let mut res = "ok";
+                            if let Some(p) = child.stdin.as_mut() {
+                                while off < payload.len() {
+                                    match p.write(&payload[off..]) {
+                                        Ok(k) if k > 0 => off += k,
+                                        _ => {
+                                            res = "err";
+                                            break;
+                                        }
+                                    }
+                                }
+                            } else {
+                                res = "nopipe";
+                            }
+                            ev(json!({"ev":"io","round":round,"op":"W","res":res,"n":off}));
+                            continue;
+                        }
+                        "C" => {
+                            drop(child.stdin.take());
+                            ev(json!({"ev":"io","round":round,"op":"C","res":"ok","n":0}));
+                            continue;
+                        }
+                        "RO" | "RE" => {
+                            let mut v = read_all(if op == "RO" { &mut child.stdout } else { &mut child.stderr });
+                            v["ev"] = json!("io");
+                            v["round"] = json!(round);
+                            v["op"] = json!(op);
+                            ev(v);
+                            continue;
+                        }
+                        _ => {}
+                    }
                     let r: Result<Option<i32>, tiny_std::Error> = match op.as_str() {
                         "wait" => child.wait().map(Some),
                         "try" => child.try_wait(),
@@ -256,28 +327,17 @@ fn main() {
                         }
                     };
                     match r {
-                        Ok(Some(st)) => ev(json!({"ev":"waited","op":op,"res":"ok","status":st})),
-                        Ok(None) => ev(json!({"ev":"waited","op":op,"res":"none","status":0})),
+                        Ok(Some(st)) => ev(json!({"ev":"waited","round":round,"op":op,"res":"ok","status":st})),
+                        Ok(None) => ev(json!({"ev":"waited","round":round,"op":op,"res":"none","status":0})),
                         Err(e) => {
                             let code = if let tiny_std::Error::Os { code, .. } = e { code.raw() } else { 0 };
-                            ev(json!({"ev":"waited","op":op,"res":"err","status":code}))
+                            ev(json!({"ev":"waited","round":round,"op":op,"res":"err","status":code}))
                         }
                     }
                 }
-                unsafe { libc::write(-1, end.as_ptr().cast(), end.len()) };
-                let mut rd = |name: &str, p: &mut Option<tiny_std::process::AnonPipe>| {
-                    if let Some(p) = p.as_mut() {
-                        use tiny_std::io::Read as _;
-                        let mut buf = [0u8; 64];
-                        let n = p.read(&mut buf).unwrap_or(0);
-                        ev(json!({"ev":"piped","stream":name,"data":String::from_utf8_lossy(&buf[..n])}));
-                    }
-                };
-                rd("stdout", &mut child.stdout);
-                rd("stderr", &mut child.stderr);
             }
         }
+        unsafe { libc::write(-1, end.as_ptr().cast(), end.len()) };
     }
-    unsafe { libc::write(-1, end.as_ptr().cast(), end.len()) };
     ev(json!({"ev":"driver_end","fds":fd_table()}));
 }
